@@ -1341,6 +1341,13 @@ class Engine:
             return None
         if n == 'verif_vfs_die_after':        # the process dies right after the n-th persistence event from now (n = 0: before the next one)
             s.die_after = args[0]; s.die_base = s.events; return None
+        if n == 'verif_stdout_capture': s.capture_base = len(V['<stdout>']); return None
+        if n == 'verif_stdout_len': return len(V['<stdout>']) - getattr(s, 'capture_base', 0)
+        if n == 'verif_stdout_copy':
+            buf = s.concretize(args[0], 64); cap = s.concretize(args[1], 64); data = V['<stdout>'][getattr(s, 'capture_base', 0):]
+            k = min(len(data), cap)
+            for i in range(k): s.store(buf + i, 1, data[i])
+            return k
         if n == 'verif_vfs_event': return int(s.vfs_event())
         if n == 'verif_vfs_frozen': return int(s.frozen)
         if n == 'verif_vfs_events': return s.events
